@@ -2,7 +2,7 @@
    does on a small project what the property says (overlapping targets, nested test files,
    hidden and vendor-like directories, a target that is itself called "build"). *)
 From Coq Require Import NArith List Bool.
-From PV Require Import Gen.FileSelConst Cli.Glob Cli.FileSel Cli.PathProofs Cli.FileSelProofs.
+From PV Require Import Gen.FileSelConst Cli.Glob Cli.GlobX Cli.FileSel Cli.PathProofs Cli.FileSelProofs.
 Import ListNotations.
 Open Scope N_scope.
 
@@ -90,7 +90,7 @@ Lemma default_excludes_have_no_slash : forallb (fun p => negb (has_slash p)) fil
 Proof. vm_compute. reflexivity. Qed.
 
 Theorem default_exclude_any_depth : forall inc p d b,
-  In p filesel_default_exclude -> glob p [b] = true -> ~ selected inc filesel_default_exclude (d ++ [b]).
+  In p filesel_default_exclude -> xglob p [b] = true -> ~ selected inc filesel_default_exclude (d ++ [b]).
 Proof.
   intros inc p d b Hin Hg. apply (exclude_by_name_any_depth inc _ p d b Hin); [|assumption].
   pose proof default_excludes_have_no_slash as H. rewrite forallb_forall in H.
